@@ -28,9 +28,9 @@ m = {
     'version': 1,
     'setup_cmd': 'cd /verif && ./setup.sh',
     'hooks': {'guard': 'GMLC_TDC_CONCURRENCY_VERIF',
-              'enable': 'harness builds only: g++ -DGMLC_TDC_CONCURRENCY_VERIF -include harness/vstd.hpp -I$VERIF_REPO (zero-touch substitution layer; no guarded code exists in /repo)',
+              'enable': 'harness builds only: g++ -DGMLC_TDC_CONCURRENCY_VERIF -include harness/vstd.hpp -I$VERIF_REPO (substitution layer for the standard primitives; the only guarded code in /repo declares four plain internal fields - rcu_list::node::deleted, Barrier::threshold_/count_/generation_ - through gmlc_verif::plain<T>, supplied by vstd.hpp)',
               'baseline_off_cmd': 'cmake --build /repo/_build && ctest --test-dir /repo/_build -j8 --timeout 900',
-              'source_commits': [], 'add_only': True},
+              'source_commits': ['aee6fc7502ef85dcd3a8cebf41101f2a023885a0'], 'add_only': True},
     'engines': [{'name': 'tlc+harness', 'path': '/verif/check', 'serves_properties': [c['property_id'] for c in checks],
                  'kind_free_text': 'TLC (exhaustive bounded model checking + trace validation) bound to the unmodified headers through a force-included '
                                    'substitution layer and a deterministic cooperative scheduler'}],
